@@ -192,13 +192,13 @@ theorem windowUpdate_encSeq (d : Dir α) (order : List Nat) (s n : Nat) : (d.win
 theorem setInitWin_encSeq (d : Dir α) (order : List Nat) (v : Nat) : (d.setInitWin order v).1.encSeq = d.encSeq := by
   unfold Dir.setInitWin Dir.pass; rw [emitList_encSeq]
 
-theorem applySettings_encSeq (o : Dir α) (ord : Nat → List Nat) (k : Nat) (kvs : List (Nat × Nat)) :
-    (applySettings o ord k kvs).1.encSeq = o.encSeq := by
+theorem applyEach_encSeq (o : Dir α) (ord : Nat → List Nat) (k : Nat) (kvs : List (Nat × Nat)) :
+    (applyEach o ord k kvs).1.encSeq = o.encSeq := by
   induction kvs generalizing o k with
   | nil => rfl
   | cons kv rest ih =>
     obtain ⟨id, v⟩ := kv
-    simp only [H2.applySettings]
+    simp only [H2.applyEach]
     split
     · rw [ih, setInitWin_encSeq]
     · split
@@ -300,7 +300,7 @@ theorem process_encSeq (d o : Dir α) (ord : Nat → List Nat) (op : Op α) :
   | priority sid prio => exact ⟨by simp [H2.process, enqOf, enqEmit_encSeq, seqs], rfl⟩
   | rst sid code => exact ⟨by simp [H2.process, enqOf, enqEmit_encSeq, seqs], rfl⟩
   | windowUpdate sid inc => exact ⟨by simp [H2.process, enqOf, seqs], windowUpdate_encSeq o (ord 0) sid inc⟩
-  | settings kvs => exact ⟨by simp [H2.process, enqOf, seqs], applySettings_encSeq o ord 0 kvs⟩
+  | settings kvs => exact ⟨by simp [H2.process, enqOf, seqs], applyEach_encSeq o ord 0 (inForce kvs)⟩
   | settingsAck => exact ⟨by simp [H2.process, enqOf, seqs], rfl⟩
   | ping ack data => exact ⟨by simp [H2.process, enqOf, seqs], rfl⟩
   | goAway last code debug => exact ⟨by simp [H2.process, enqOf, seqs], rfl⟩
